@@ -38,6 +38,11 @@ type Obligation struct {
 	Full      bool   // keep every collected range fact (no cone-of-influence pruning, see smt.go)
 }
 
+type loopPC struct {
+	ord int
+	pc  []string
+}
+
 type InputVar struct {
 	Name string // spec-level name (param name)
 	Term string // SMT constant
@@ -78,6 +83,7 @@ type Ctx struct {
 	preDecls    int
 	exitCount   int
 	exitPCs     [][]string
+	loopPCs     []loopPC // path condition at the start of the body of each loop that has a loop contract
 	fnSrc       *FuncSrc
 	tsubst      map[*types.TypeParam]types.Type
 	ghSorts     map[string]string // ghost variables with a raw SMT sort (e.g. the big-int heap)
